@@ -55,7 +55,12 @@ type Res struct {
 	Frame string `json:"frame,omitempty"` // innermost repository frame of a panic
 	Stage string `json:"stage,omitempty"` // "parse" if the error came from parsing
 	raw   error
+	bytes []byte // the []byte a Render/ParseAndRender call returned, kept un-copied
 }
+
+// Intact reports whether the []byte the call returned still holds what it held
+// when the call returned (it must: a returned result is the caller's).
+func (r Res) Intact() bool { return r.bytes == nil || string(r.bytes) == r.Out }
 
 func (r Res) Key() string {
 	return fmt.Sprintf("ok=%v|out=%q|err=%q|path=%q|line=%d|panic=%q|stage=%s", r.OK, r.Out, r.Err, r.Path, r.Line, r.Panic, r.Stage)
@@ -181,7 +186,7 @@ func Run(ep int, e *liquid.Engine, tpl *liquid.Template, src string, b map[strin
 			if err != nil {
 				return errRes(err, "")
 			}
-			return Res{OK: true, Out: string(out)}
+			return Res{OK: true, Out: string(out), bytes: out}
 		case EPRenderString:
 			out, err := tpl.RenderString(b)
 			if err != nil {
@@ -207,7 +212,7 @@ func Run(ep int, e *liquid.Engine, tpl *liquid.Template, src string, b map[strin
 			if err != nil {
 				return errRes(err, "")
 			}
-			return Res{OK: true, Out: string(out)}
+			return Res{OK: true, Out: string(out), bytes: out}
 		case EPParseAndRenderString:
 			out, err := e.ParseAndRenderString(src, b)
 			if err != nil {
